@@ -430,6 +430,26 @@ const PROBES: &[(&str, &str)] = &[
         "def Box : VType = data | +Box : Int64 * Int64 end that\n\
          let b = (+Box(4, 5) : Box) in match b | +Box(x, y) => ! (process/exit) y end",
     ),
+    // a tuple bound to a plain variable and taken apart more than once (the lowering keeps such a
+    // tuple unboxed in field slots)
+    (
+        "tuple-variable-taken-apart-twice",
+        "let pair = (10, 4) in let (first, _) = pair in let (_, second) = pair in do s <- ! (int64/add) first second; ! (process/exit) s",
+    ),
+    (
+        "tuple-variable-taken-apart-three-times",
+        "let triple = (1, 2, 4) in let (a, _, _) = triple in let (_, b, _) = triple in let (_, _, c) = triple in do s <- ! (int64/add) a b; do t <- ! (int64/add) s c; ! (process/exit) t",
+    ),
+    (
+        "tuple-variable-taken-apart-in-each-arm",
+        "let ZB = data | +T : Unit | +F : Unit end that\n\
+         let flag : ZB = +F() in let pair = (7, 3) in\n\
+         match flag | +T(_) => let (code, _) = pair in ! (process/exit) code | +F(_) => let (_, code) = pair in ! (process/exit) code end",
+    ),
+    (
+        "tuple-variable-taken-apart-and-passed-on",
+        "let pair = (10, 4) in let (first, _) = pair in let keep = { fn (p : Int64 * Int64) => let (_, q) = p in ! (process/exit) q } in ! keep pair",
+    ),
     // alias patterns `(p; q)`: both bind the same value
     (
         "alias-pattern-in-let",
